@@ -432,3 +432,21 @@ package dialer
 //@   at call snapshotAliveDialerGroupsLocked#1 assert a1 == collection
 //@   at call NotifyLatencyChange#1 assert a1 == d && a2 == true
 //@   at call notifyAliveTransition#1 assert a2 == true && !update.was
+
+// C16 (escalation after three consecutive deaths of a proxy address): every report counts one more death for
+// the address; the third one without a success in between answers true exactly once - the counter entry is
+// dropped and the cached proxy address invalidated - and a success drops the entry.
+//@ func recordProxyFailure
+//@   anchorsonly
+//@   nonilcheck
+//@   dyncalls noeffect
+//@   modifies *
+//@   at call builtin:delete#1 assert a1 == proxyAddr && entry.count >= maxConsecutiveFailures
+//@   at call invalidateProxyCache#1 assert a0 == proxyAddr && calls("builtin:delete") == 1
+//@   ensures result <==> calls("invalidateProxyCache") == 1
+//@   ensures !result ==> has(globalProxyIpHealthTracker.failures, proxyAddr) && globalProxyIpHealthTracker.failures[proxyAddr].count < maxConsecutiveFailures
+//@ func recordProxySuccess
+//@   nonilcheck
+//@   dyncalls noeffect
+//@   modifies *
+//@   ensures !has(globalProxyIpHealthTracker.failures, proxyAddr)
